@@ -109,6 +109,9 @@ func (c *Collection) Add(id string, body proto.Message, opts ...WriteOption) (pr
 }
 
 func (c *Collection) Update(id string, msg proto.Message, opts ...WriteOption) (proto.Message, error) {
+	// whether the caller provided an id is decided on the id as given: an id interceptor may turn the
+	// empty id into a key of its own (a prefix, a suffix), which is not an id anybody provided.
+	idAbsent := id == ""
 	if c.idInterceptor != nil {
 		id = c.idInterceptor(id)
 	}
@@ -141,11 +144,12 @@ func (c *Collection) Update(id string, msg proto.Message, opts ...WriteOption) (
 			}
 
 			// handle empty ids, generating them, and invoking callbacks
-			if id == "" && writeRequest.genEmptyID {
+			if (idAbsent || id == "") && writeRequest.genEmptyID {
 				id, err = c.genID()
 				if err != nil {
 					return nil, err
 				}
+				idAbsent = false
 				if writeRequest.idCallback != nil {
 					writeRequest.idCallback(id)
 				}
